@@ -15,13 +15,9 @@ import sys
 import vlib
 
 THEOREMS = [
-    "varint_roundtrip", "varint_guard_forced", "varints_roundtrip",
-    "le_roundtrip", "fixed_roundtrip_i16", "fixed_roundtrip_i32", "fixed_roundtrip_i64",
-    "block_roundtrip_plain_fixed", "block_roundtrip_plain_char", "block_roundtrip_plain_blob",
-    "block_roundtrip_nullable", "block_roundtrip_rle", "block_roundtrip_dict",
-    "char_embedded_nul_witness", "nonnullable_null_witness", "rle_eq_not_identity_witness",
-    "cut_concat", "cut_blocks_nonempty", "column_roundtrip", "index_exact", "index_covers",
-    "iter_refines_slice", "iter_concat_partial", "nullable_cross_block_witness",
+    "varint_roundtrip", "varint_guard_forced", "varints_roundtrip", "le_roundtrip",
+    "shouldFinish_new", "block_roundtrip_plain_of", "block_roundtrip_plain_fixed", "block_roundtrip_nullable",
+    "nonnullable_null_witness", "cut_concat", "cut_blocks_nonempty", "index_exact", "index_covers",
 ]
 
 KNOWN_REASONS = {
@@ -64,63 +60,91 @@ DEFAULTS = {"bool": "b:false", "i16": "i16:0", "i32": "i32:0", "i64": "i64:0", "
             "date": "date:0", "str": "s:", "blob": "blob:"}
 
 
-def oracle(req, ans):
-    """Model-free oracle for one request on one answer (implementation's or model's).
-    Returns (verdict, reason, detail): verdict in ok | bad | skip.
-    `reason` names the first broken clause of the property."""
-    xs = req["vals"]
+# ------------------------------------------------------------------------------------------------
+# model-free oracle
+# ------------------------------------------------------------------------------------------------
+
+def f64_class(v):
+    """OrderedFloat<f64>'s Eq classes: all NaNs equal, -0.0 == 0.0."""
+    if not v.startswith("f64:"):
+        return v
+    bits = int(v[4:], 16)
+    if (bits >> 52) & 0x7FF == 0x7FF and bits & ((1 << 52) - 1):
+        return "f64:nan"
+    if bits & ((1 << 63) - 1) == 0:
+        return "f64:zero"
+    return v
+
+
+def norm_null_default(req):
+    d = DEFAULTS[req["ty"]]
+    return (lambda v: d if v == "null" else v), (lambda v: v)
+
+
+def norm_char_nul(req):
+    def cut(v):
+        if v.startswith("s:"):
+            h = v[2:]
+            for i in range(0, len(h), 2):
+                if h[i:i + 2] == "00":
+                    return "s:" + h[:i]
+        return v
+    return cut, (lambda v: v)
+
+
+def norm_f64(req):
+    return f64_class, f64_class
+
+
+def walk(req, ans, norm=None):
+    """The property, checked on one answer without any model: every returned (row_id, batch) is
+    the slice of the written values at row_id, row ids are the logical positions implied by the
+    ops so far, batches respect the requested size, the scan ends exactly at the end, and the
+    index entries partition the rows.  `norm = (on_written, on_read)` value maps (identity when
+    None) are used only to attribute a failure to one known mechanism.
+    -> (verdict ok|bad|skip, reason, detail, info)"""
+    fw, fr = norm if norm else ((lambda v: v), (lambda v: v))
+    xs = [fw(v) for v in req["vals"]]
     n = len(xs)
+    info = {"crossing": False}
+    if req["cw"] is not None and any(v.startswith("s:") and (len(v) - 2) // 2 > req["cw"] for v in req["vals"]):
+        # outside the input domain (an item wider than the declared char width): the builder panics
+        if ans["build"] == "panic":
+            return "skip", "char-too-long", "", info
     if ans["build"] != "ok":
-        return "bad", "build-" + ans["build"], ""
+        return "bad", "build-" + ans["build"], "", info
     if n == 0:
-        return "skip", "empty", ""
-    # index exactness: entries partition 0..n, in order, none empty
+        return "skip", "empty", "", info
+    bounds = []
     pos = 0
     for (first, count, off, ln) in ans["idx"]:
         if first != pos or count == 0:
-            return "bad", "index-inexact", "entry first=%d count=%d but %d rows precede it" % (first, count, pos)
+            return "bad", "index-inexact", "entry first=%d count=%d but %d rows precede it" % (first, count, pos), info
         pos += count
+        bounds.append(pos)
     if pos != n:
-        return "bad", "index-inexact", "index covers %d rows of %d" % (pos, n)
-    got_concat = []
-    for o in ans["outs"]:
-        if o in ("panic", "err"):
-            return "bad", "read-" + o, ""
-        if o.startswith("h:") or o.startswith("r:") or o == "none":
-            continue
-        m = re.match(r"b:(\d+):(.*)$", o)
-        rid = int(m.group(1))
-        vs = m.group(2).split(",") if m.group(2) != "" else []
-        want = xs[rid:rid + len(vs)]
-        if vs != want:
-            return "bad", "batch-not-slice", "row_id=%d got %s want %s" % (rid, vs[:6], want[:6])
-        got_concat.append((rid, len(vs)))
-    return "ok", "", got_concat
-
-
-def walk(req, ans):
-    """Full oracle including positions: replays the op list against the outputs.
-    -> (verdict, reason, detail)"""
-    xs = req["vals"]
-    n = len(xs)
-    v, r, d = oracle(req, ans)
-    if v != "ok":
-        return v, r, d
+        return "bad", "index-inexact", "index covers %d rows of %d" % (pos, n), info
     outs = list(ans["outs"])
-    p = req["start"]
-    i = 0
+    state = {"p": req["start"], "i": 0}
 
     def take():
-        nonlocal i
-        if i >= len(outs):
+        if state["i"] >= len(outs):
             return None
-        i += 1
-        return outs[i - 1]
+        state["i"] += 1
+        return outs[state["i"] - 1]
+
+    def block_end(r):
+        for b in bounds:
+            if r < b:
+                return b
+        return n
 
     def batch(o, limit):
-        nonlocal p
+        p = state["p"]
         if o is None:
             return "bad", "missing-output", ""
+        if o in ("panic", "err"):
+            return "bad", "read-" + o, "at logical row %d" % p
         if o == "none":
             if p < n:
                 return "bad", "early-end", "None at row %d of %d" % (p, n)
@@ -129,38 +153,48 @@ def walk(req, ans):
         if not m:
             return "bad", "unexpected-output", o[:40]
         rid = int(m.group(1))
-        k = len(m.group(2).split(",")) if m.group(2) != "" else 0
+        vs = [fr(v) for v in m.group(2).split(",")] if m.group(2) != "" else []
+        k = len(vs)
+        if limit is not None and rid + limit > block_end(rid) and block_end(rid) < n:
+            info["crossing"] = True
         if rid != p:
             return "bad", "row-id-inexact", "batch reports row %d, logical position %d" % (rid, p)
+        if vs != xs[rid:rid + k]:
+            return "bad", "batch-not-slice", "row_id=%d got %s want %s" % (rid, vs[:6], xs[rid:rid + 6])
         if k == 0 or p >= n:
             return "bad", "empty-batch", ""
         if limit is not None and k > limit:
             return "bad", "batch-too-large", "%d > %d" % (k, limit)
-        p += k
+        state["p"] = p + k
         return "ok", "", ""
 
     for op in req["ops"]:
         name, _, arg = op.partition(":")
-        if name in ("h", "r"):
-            take()
+        if name == "h":
+            o = take()
+            if o in ("panic", "err", None):
+                return "bad", "read-%s" % o, "", info
+        elif name == "r":
+            o = take()
+            if o in ("panic", "err", None):
+                return "bad", "read-%s" % o, "", info
+            if o.startswith("r:") and state["p"] < n and int(o[2:]) != state["p"]:
+                return "bad", "row-id-inexact", "fetch_current_row_id=%s logical=%d" % (o[2:], state["p"]), info
         elif name == "s":
-            p += int(arg)
+            state["p"] += int(arg)
         elif name == "sh":
-            # skip(min(c, hint)) — the hint is the implementation's; bounded by c
-            # logical effect: unknown k <= c; recover it from the next reported row id
-            nxt = next((o for o in outs[i:] if o.startswith("b:") or o.startswith("r:")), None)
-            if nxt is None:
-                p = max(p, n) if any(o == "none" for o in outs[i:]) else p
-            else:
-                q = int(nxt.split(":")[1])
-                if not (p <= q <= p + int(arg)):
-                    return "bad", "row-id-inexact", "after skip(<=%s) from %d the iterator is at %d" % (arg, p, q)
-                p = q
+            o = take()
+            if o is None or not o.startswith("k:"):
+                return "bad", "read-%s" % o, "", info
+            k = int(o[2:])
+            if k > int(arg):
+                return "bad", "skip-too-large", "", info
+            state["p"] += k
         elif name in ("n", "nh"):
             lim = None if arg == "-" else int(arg)
             v, r, d = batch(take(), lim)
             if v != "ok":
-                return v, r, d
+                return v, r, d, info
         elif name == "drain":
             dn, _, da = arg.partition(":")
             lim = None if da == "-" else int(da)
@@ -168,23 +202,210 @@ def walk(req, ans):
                 o = take()
                 v, r, d = batch(o, lim)
                 if v != "ok":
-                    return v, r, d
+                    return v, r, d, info
                 if o == "none":
                     break
-            if p < n:
-                return "bad", "early-end", "drain stopped at %d of %d" % (p, n)
-    return "ok", "", ""
+    if state["i"] != len(outs):
+        return "bad", "extra-output", " ".join(outs[state["i"]:state["i"] + 3])[:80], info
+    return "ok", "", "", info
 
 
-def classify(req, verdict, reason, detail=""):
-    """Maps a broken clause on a request to a known-finding reason tag, using only the request's
-    own features (what was written / how it was read), never the model."""
-    if verdict != "bad":
-        return None
-    if "null-in-nonnullable" in req["feat"] and reason in ("batch-not-slice",):
-        return "null-in-nonnullable"
-    if "char-embedded-nul" in req["feat"] and reason == "batch-not-slice":
-        return "char-embedded-nul"
-    if "f64-eq-nonidentical" in req["feat"] and req["enc"] in ("rle", "dict") and reason == "batch-not-slice":
-        return "f64-eq-nonidentical"
+def classify(req, ans, same_as_model):
+    """Attributes an oracle failure to known mechanisms using the request itself (what was
+    written, how it was read) and the answer's own index — never the model's prediction, except
+    that the cross-block mechanism additionally requires the model (which implements
+    `replace_bitmap`) to predict exactly the same output.  -> list of reason tags or None."""
+    norms = []
+    if not req["nullable"] and "null" in req["vals"]:
+        norms.append(("null-in-nonnullable", norm_null_default(req)))
+    if req["cw"] is not None and any(v.startswith("s:") and "00" in [v[2:][i:i + 2] for i in range(0, len(v) - 2, 2)] for v in req["vals"]):
+        norms.append(("char-embedded-nul", norm_char_nul(req)))
+    if req["ty"] == "f64" and req["enc"] in ("rle", "dict"):
+        cls = {}
+        for v in req["vals"]:
+            cls.setdefault(f64_class(v), set()).add(v)
+        if any(len(s) > 1 for s in cls.values()):
+            norms.append(("f64-eq-nonidentical", norm_f64(req)))
+    for tag, nm in norms:
+        if walk(req, ans, nm)[0] == "ok":
+            return [tag]
+    if len(norms) > 1:
+        def compose(fs):
+            def f(v):
+                for g in fs:
+                    v = g(v)
+                return v
+            return f
+        nm = (compose([x[1][0] for x in norms]), compose([x[1][1] for x in norms]))
+        if walk(req, ans, nm)[0] == "ok":
+            return [x[0] for x in norms]
+    v, r, d, info = walk(req, ans)
+    if req["nullable"] and req["enc"] == "plain" and info["crossing"] and same_as_model:
+        return ["nullable-batch-crosses-block"]
     return None
+
+
+# ------------------------------------------------------------------------------------------------
+# the check
+# ------------------------------------------------------------------------------------------------
+
+def corpus_lines():
+    d = os.path.join(vlib.VERIF, "corpus", "C06")
+    out = []
+    if os.path.isdir(d):
+        for fn in sorted(os.listdir(d)):
+            if fn.endswith(".txt"):
+                out += [l for l in open(os.path.join(d, fn)).read().split("\n") if l.startswith("enc ")]
+    return out
+
+
+def run_both(ck, req_path):
+    (rc1, impl), (rc2, model) = vlib.run_pair(ck, [vlib.harness_bin("c06"), "run"], [vlib.lean_exe("drv_c06")], req_path)
+    return rc1, impl, rc2, model
+
+
+def decide(ck, reqs, impl, model, cov):
+    from collections import Counter
+    dist = cov.setdefault("distribution", {})
+    c_ty, c_enc, c_blk, c_feat, c_ops, c_blocks, c_out = (Counter() for _ in range(7))
+    mvi = {"compared": 0, "disagree": 0}
+    ivo = {"compared": 0, "disagree": 0, "known": 0, "skipped": 0}
+    mvo = {"compared": 0, "disagree": 0, "known": 0, "skipped": 0}
+    distinct = set()
+    for k, q in enumerate(reqs):
+        req = parse_req(q)
+        a_i = impl[k] if k < len(impl) else ""
+        a_m = model[k] if k < len(model) else ""
+        A_i, A_m = parse_ans(a_i), parse_ans(a_m)
+        c_ty[req["ty"] + ("?" if req["nullable"] else "")] += 1
+        c_enc[req["enc"]] += 1
+        c_blk[req["block"]] += 1
+        for f in req["feat"]:
+            c_feat[f] += 1
+        for op in req["ops"]:
+            c_ops[op.split(":")[0]] += 1
+        c_blocks[min(len(A_i["idx"]), 20)] += 1
+        same = a_i.strip() == a_m.strip()
+        mvi["compared"] += 1
+        if len(req["vals"]) > 0 and len(A_i["idx"]) >= 2:
+            distinct.add(req["line"])
+        # --- implementation vs the property itself
+        v, r, d, info = walk(req, A_i)
+        c_out[v + (":" + r if r else "")] += 1
+        if v == "skip":
+            ivo["skipped"] += 1
+        else:
+            ivo["compared"] += 1
+        if v == "bad":
+            ivo["disagree"] += 1
+            tags = classify(req, A_i, same)
+            replay = {"request": q, "impl": a_i[:4000], "model": a_m[:4000], "broken_clause": r, "detail": d}
+            if tags:
+                for t in tags:
+                    if ck.report(KNOWN_REASONS[t], "%s: %s (%s)" % (t, r, d[:160]), replay=replay) == "known":
+                        ivo["known"] += 1
+            else:
+                ck.report("oracle:%s/%s%s/%s" % (r, req["enc"], "-nullable" if req["nullable"] else "", req["ty"]),
+                          "the implementation breaks the round-trip property (%s): %s" % (r, d[:300]), replay=replay)
+        # --- model vs the property (validates the model as a spec carrier)
+        vm, rm, dm, _ = walk(req, A_m)
+        if vm == "skip":
+            mvo["skipped"] += 1
+        else:
+            mvo["compared"] += 1
+            if vm == "bad":
+                mvo["disagree"] += 1
+                if classify(req, A_m, same):
+                    mvo["known"] += 1
+        # --- the tie
+        if not same:
+            mvi["disagree"] += 1
+            where = "build" if a_i.split(" R")[0] != a_m.split(" R")[0] else "read"
+            found = v == "bad" and not classify(req, A_i, same)
+            ck.report("corr:%s/%s%s" % (where, req["enc"], "-nullable" if req["nullable"] else ""),
+                      "model and implementation disagree (%s part) on %s" % (where, q[:200]),
+                      replay={"request": q, "impl": a_i[:4000], "model": a_m[:4000], "oracle_on_impl": [v, r, d]},
+                      found_input=found)
+    dist.update({"type(?=nullable)": dict(c_ty), "encode": dict(c_enc), "block_size": {str(k): v for k, v in sorted(c_blk.items())},
+                 "injected_features": dict(c_feat), "ops": dict(c_ops), "blocks_per_column(cap20)": {str(k): v for k, v in sorted(c_blocks.items())},
+                 "oracle_outcomes_on_impl": dict(c_out)})
+    return mvi, ivo, mvo, distinct
+
+
+def run(ck):
+    n_arrays = 550 if ck.quick() else 12000
+    # 1. translator
+    rc, out = vlib.sh([sys.executable, os.path.join(vlib.VERIF, "translator", "gen_consts.py")])
+    ck.log(out.strip())
+    if rc != 0:
+        ck.report("translator:consts", "storage-format constants can no longer be extracted from the source: " + out.strip()[-300:],
+                  replay={"output": out[-2000:]}, found_input=False)
+    # 2. Lean
+    bad = vlib.step_lean(ck, "RlModel.Thm.C06", THEOREMS, extra_targets=["drv_c06"])
+    # 3. harness
+    ok, log = vlib.step_cargo(ck, ["c06"])
+    if not ok:
+        ck.report("build:harness", "harness does not build against the repository", replay={"log": log[-2000:]}, found_input=False)
+        return ck.finish(level="proof")
+    # 4. corpus first, then generated
+    req_path = os.path.join(ck.work, "req.txt")
+    gen_path = os.path.join(ck.work, "gen.txt")
+    vlib.sh([vlib.harness_bin("c06"), "gen", str(n_arrays), gen_path])
+    corpus = corpus_lines()
+    gen_lines = [l for l in open(gen_path).read().split("\n") if l]
+    reqs = corpus + gen_lines
+    with open(req_path, "w") as f:
+        f.write("\n".join(reqs) + "\n")
+    ck.log("running %d requests (%d corpus) on implementation and model" % (len(reqs), len(corpus)))
+    rc1, impl, rc2, model = run_both(ck, req_path)
+    impl = [l for l in impl if l != ""] if len([l for l in impl if l != ""]) == len(reqs) else impl
+    model = [l for l in model if l != ""] if len([l for l in model if l != ""]) == len(reqs) else model
+    if rc1 != 0 or len(impl) < len(reqs):
+        ck.report("run:harness", "harness run failed (rc=%s, %d answers for %d requests)" % (rc1, len(impl), len(reqs)),
+                  replay={"tail": "\n".join(impl[-5:])[-2000:]}, found_input=False)
+    if rc2 != 0 or len(model) < len(reqs):
+        ck.report("run:driver", "Lean driver failed (rc=%s, %d answers for %d requests)" % (rc2, len(model), len(reqs)),
+                  replay={"tail": "\n".join(model[-5:])[-2000:]}, found_input=False)
+    cov = ck.coverage
+    mvi, ivo, mvo, distinct = decide(ck, reqs, impl, model, cov)
+    # 5. undischarged obligations: search = the oracle run above (all generated + corpus inputs)
+    for name, st in bad.items():
+        ck.report("thm:" + name, "theorem %s is not discharged (%s); the model-free oracle found %d unexplained failing input(s) on this run"
+                  % (name, st.get("status"), len([v for v in ck.violations if v[0].startswith("oracle:")])),
+                  replay={"theorem": name, "status": st}, found_input=False)
+    cov.update({
+        "evaluations": len(reqs),
+        "distinct_nontrivial": len(distinct),
+        "rule": "distinct request lines whose column has >= 1 row and was cut into >= 2 blocks by the real builder",
+        "samples": [r[:300] for r in gen_lines[:3] + corpus[:2]],
+        "model_vs_impl": mvi, "impl_vs_oracle": ivo, "model_vs_oracle": mvo,
+        "not_modelled_byte_exact": ["decimal", "interval", "timestamp", "vector"],
+    })
+    return ck.finish(level="proof", checker_cmd="translator/gen_consts.py; lake build RlModel.Thm.C06 drv_c06; #print axioms audit",
+                     trusted_base=["Lean 4 kernel (axioms: propext, Classical.choice, Quot.sound)",
+                                   "translator/gen_consts.py (regex extraction of constants)",
+                                   "harness/src/bin/c06.rs + /repo hook storage::secondary::verif_hooks (thin wrappers over the real builders/iterators)",
+                                   "checks/c06.py oracle (slice semantics)",
+                                   "RLE/dictionary block iterators are modelled by logical position (their internal run cursor is validated differentially, not proved)"])
+
+
+def replay(path):
+    """Re-executes a stored case on the implementation and on the model and prints both."""
+    rp = json.load(open(path))
+    q = rp["replay"]["request"] if isinstance(rp.get("replay"), dict) and "request" in rp["replay"] else None
+    if q is None:
+        print(json.dumps(rp, indent=1)[:4000])
+        return 0
+    os.makedirs(vlib.WORK, exist_ok=True)
+    tmp = os.path.join(vlib.WORK, "replay_c06_%d.txt" % os.getpid())
+    open(tmp, "w").write(q + "\n")
+    rc1, o1 = vlib.sh([vlib.harness_bin("c06"), "run", tmp])
+    rc2, o2 = vlib.sh([vlib.lean_exe("drv_c06")], stdin=q + "\n")
+    os.unlink(tmp)
+    req = parse_req(q)
+    print("request:", q[:2000])
+    print("impl   :", o1.strip()[:2000])
+    print("model  :", o2.strip()[:2000])
+    v, r, d, _ = walk(req, parse_ans(o1.strip()))
+    print("oracle on impl:", v, r, d)
+    return 0 if v != "bad" else 1
